@@ -249,6 +249,18 @@ func (ex *Exec) scanMods(fr *frame, l *Loop, st *State) *loopMods {
 								continue
 							}
 						}
+						if sig, ok := cc.Value.Type().Underlying().(*types.Signature); ok && !cc.IsInvoke() {
+							if c, ok := ex.P.CS.Ifaces["functype:"+sigKey(sig)]; ok {
+								pn := append([]string(nil), c.Params...)
+								var pt []types.Type
+								for i := 0; i < sig.Params().Len(); i++ {
+									pt = append(pt, sig.Params().At(i).Type())
+								}
+								if ex.addModRegionsSig(c, m, pn, pt) {
+									continue
+								}
+							}
+						}
 						m.all = true
 						continue
 					}
